@@ -133,9 +133,9 @@ func b(s string) pbt.B { return pbt.B(s) }
 
 func genCmd(t *rapid.T, g keyGen, allowUnknown bool) Cmd {
 	v := b(fmt.Sprintf("v%d", rapid.IntRange(0, 999).Draw(t, "val")))
-	n := 24
+	n := 27
 	if allowUnknown {
-		n = 27
+		n = 30
 	}
 	switch rapid.IntRange(0, n).Draw(t, "cmd") {
 	case 0, 1, 2:
@@ -195,8 +195,37 @@ func genCmd(t *rapid.T, g keyGen, allowUnknown bool) Cmd {
 	case 24:
 		return Cmd{"append", []pbt.B{g.key(), v}}
 	case 25:
-		return Cmd{"foo.bar", []pbt.B{g.key(), v}} // a command neither the static table nor COMMAND GETKEYS knows
+		// write forms of GEORADIUS: the destination is the key after the LAST of STORE / STOREDIST
+		c := Cmd{"georadius", []pbt.B{g.key(), b("13.3"), b("38.1"), b("200"), b("km")}}
+		if rapid.Bool().Draw(t, "count") {
+			c.Args = append(c.Args, b("COUNT"), b("3"))
+		}
+		for i, k := 0, rapid.IntRange(1, 2).Draw(t, "nstore"); i < k; i++ {
+			c.Args = append(c.Args, b(rapid.SampledFrom([]string{"STORE", "STOREDIST", "store"}).Draw(t, "storeopt")), g.key())
+		}
+		return c
 	case 26:
+		c := Cmd{"georadiusbymember", []pbt.B{g.key(), b(rapid.SampledFrom([]string{"Palermo", "store", "STOREDIST"}).Draw(t, "member")), b("200"), b("km")}}
+		for i, k := 0, rapid.IntRange(1, 2).Draw(t, "nstore"); i < k; i++ {
+			c.Args = append(c.Args, b(rapid.SampledFrom([]string{"STORE", "STOREDIST"}).Draw(t, "storeopt")), g.key())
+		}
+		return c
+	case 27:
+		// SORT ... STORE: the destination is the key after the LAST STORE; LIMIT / GET # / BY nosort carry no keys
+		c := Cmd{"sort", []pbt.B{g.key()}}
+		if rapid.Bool().Draw(t, "limit") {
+			c.Args = append(c.Args, b("LIMIT"), b("0"), b("5"))
+		}
+		if rapid.Bool().Draw(t, "by") {
+			c.Args = append(c.Args, b("BY"), b("nosort"))
+		}
+		for i, k := 0, rapid.IntRange(1, 2).Draw(t, "nstore"); i < k; i++ {
+			c.Args = append(c.Args, b("STORE"), g.key())
+		}
+		return c
+	case 28:
+		return Cmd{"foo.bar", []pbt.B{g.key(), v}} // a command neither the static table nor COMMAND GETKEYS knows
+	case 29:
 		return Cmd{"eval", []pbt.B{b("return 1"), b("abc"), g.key()}} // numkeys is not a number: keys undeterminable
 	default:
 		return Cmd{"mycommand", []pbt.B{v, g.key()}}
@@ -318,7 +347,7 @@ func run(c Case) (fs []failure, inconc string, facts map[string]bool, hist any) 
 				return resp.Array{resp.Bulk(string(args[2]))}
 			}
 			if !ok {
-				if _, known := keyspec.Table[strings.ToLower(string(args[1]))]; known {
+				if keyspec.Known(string(args[1])) {
 					return resp.Err("ERR Invalid arguments specified for command")
 				}
 				return resp.Err("ERR Invalid command specified")
